@@ -32,7 +32,7 @@ REQUIRED_THEOREMS = ['CfVerif.C16.' + t for t in (
     'residual_zero_iff_aligned', 'deflip_correct', 'align_exact_of_zero_residual', 'align_residual_bound', 'x_samples_on_positive_axis',
     'aligned_unique', 'align_recovers_true_alignment',
     'scale_uniform', 'scale_fixed_point_exact', 'scale_diagonals_exact', 'intersection_on_plane_and_ray',
-    'scale_inputs_unmodified', 'scale_heap_refines_value', 'gen_pose_scale_rebinds', 'gen_aligner_pure', 'gen_diag_pairs_are_diagonals')]
+    'scale_inputs_unmodified', 'scale_heap_refines_value', 'gen_pose_scale_rebinds', 'gen_aligner_pure', 'gen_diag_pairs_are_diagonals', 'gen_no_shared_state', 'align_calls_do_not_interfere')]
 TRUSTED = ['harness/corr/c16.py extractor + correspondence',
            'real numbers vs IEEE binary64: the theorems are about the model over R; the same definitions run over Float agree with numpy to 1e-11',
            'scipy Rotation.from_rotvec(v).as_matrix() = Rodrigues rotation (model: rotVecToMat; scipy uses a Taylor series of sin(t/2)/t below 1e-3 rad)',
@@ -162,6 +162,85 @@ def _nat_floats(node, what):
         out.append(int(e.value))
     return out
 
+_BUILTINS = set(dir(__import__('builtins')))
+
+
+def _class_state(cls):
+    """statements in a class body that are not methods, docstrings or `pass`: class-level (shared) state"""
+    out = []
+    for n in cls.body:
+        if isinstance(n, (ast.FunctionDef, ast.AsyncFunctionDef, ast.Pass)):
+            continue
+        if isinstance(n, ast.Expr) and isinstance(n.value, ast.Constant) and isinstance(n.value.value, str):
+            continue
+        out.append(ast.unparse(n).split('\n')[0][:120])
+    return out
+
+
+def _module_state(tree):
+    """module-level statements other than imports, class/def, docstrings: module-level (shared) state"""
+    out = []
+    for n in tree.body:
+        if isinstance(n, (ast.Import, ast.ImportFrom, ast.ClassDef, ast.FunctionDef, ast.AsyncFunctionDef)):
+            continue
+        if isinstance(n, ast.Expr) and isinstance(n.value, ast.Constant) and isinstance(n.value.value, str):
+            continue
+        out.append(ast.unparse(n).split('\n')[0][:120])
+    return out
+
+
+def _module_names(tree):
+    """names a module binds at top level by import / class / def (the only legitimate free names of a method besides builtins)"""
+    out = set()
+    for n in tree.body:
+        if isinstance(n, ast.Import):
+            out |= {(a.asname or a.name).split('.')[0] for a in n.names}
+        elif isinstance(n, ast.ImportFrom):
+            out |= {a.asname or a.name for a in n.names}
+        elif isinstance(n, (ast.ClassDef, ast.FunctionDef)):
+            out.add(n.name)
+    return out
+
+
+def _shared_state_uses(tree, cls):
+    """per method of `cls`: everything through which it could communicate with another call other than its arguments, locals and
+    return value.  Returns sorted strings:
+      'm: global x' / 'm: nonlocal x'            declarations
+      'm: store cls.x' / 'm: store <attr/subscript rooted at a non-local>'   writes to class / module / foreign objects
+      'm: read cls.x'                            reads of class attributes that are not methods of the class
+      'm: free x'                                names read that are neither parameters, locals, builtins nor module imports/classes"""
+    methods = {f.name for f in cls.body if isinstance(f, (ast.FunctionDef, ast.AsyncFunctionDef))}
+    modnames = _module_names(tree)
+    out = []
+    for f in cls.body:
+        if not isinstance(f, (ast.FunctionDef, ast.AsyncFunctionDef)):
+            continue
+        bound = set()
+        for n in ast.walk(f):
+            if isinstance(n, ast.arg):
+                bound.add(n.arg)
+            elif isinstance(n, ast.Name) and isinstance(n.ctx, (ast.Store, ast.Del)):
+                bound.add(n.id)
+            elif isinstance(n, (ast.Global, ast.Nonlocal)):
+                out.append('%s: %s %s' % (f.name, 'global' if isinstance(n, ast.Global) else 'nonlocal', ','.join(n.names)))
+        selfish = {a.arg for a in f.args.args[:1]} if f.args.args else set()     # cls / self
+        for n in ast.walk(f):
+            if isinstance(n, ast.Attribute) and isinstance(n.value, ast.Name) and n.value.id in selfish and n.value.id == 'cls':
+                if isinstance(n.ctx, (ast.Store, ast.Del)):
+                    out.append('%s: store cls.%s' % (f.name, n.attr))
+                elif n.attr not in methods:
+                    out.append('%s: read cls.%s' % (f.name, n.attr))
+            elif isinstance(n, (ast.Attribute, ast.Subscript)) and isinstance(n.ctx, (ast.Store, ast.Del)):
+                root = n
+                while isinstance(root, (ast.Attribute, ast.Subscript)):
+                    root = root.value
+                if not (isinstance(root, ast.Name) and root.id in bound and root.id not in selfish and root.id not in {a.arg for a in f.args.args}):
+                    # a store into something that is not a local created by this call (argument objects, class, module objects)
+                    out.append('%s: store %s' % (f.name, ast.unparse(n)))
+            elif isinstance(n, ast.Name) and isinstance(n.ctx, ast.Load) and n.id not in bound and n.id not in _BUILTINS and n.id not in modnames:
+                out.append('%s: free %s' % (f.name, n.id))
+    return sorted(set(out))
+
 
 def extract(ctx):
     g = X.GenFile(PID, [ALIGNER, SCALER, TYPES])
@@ -251,6 +330,13 @@ def extract(ctx):
     g.strings('alignerStores', _stores(A))
     g.strings('alignerCallsOnInputs', sorted(set(_calls_on_params(A, {'origin', 'x_axis', 'xy_plane', 'bs_poses'}))))
 
+    # ---- no shared state: nothing through which two calls in flight could communicate
+    g.strings('alignerClassState', _class_state(A))
+    g.strings('alignerModuleState', _module_state(at))
+    g.strings('alignerSharedStateUses', _shared_state_uses(at, A))
+    g.strings('calcResidualParams', [a.arg for a in cr.args.args])
+    g.strings('findTransformationParams', [a.arg for a in ft.args.args])
+
     # ---- Pose (the methods the two classes use)
     tt = X.parse(TYPES)
     P = X.find(tt, 'Pose')
@@ -295,6 +381,10 @@ def extract(ctx):
     g.strings('scaleSystemLoops', ['for %s in %s: %s' % (ast.unparse(n.target), ast.unparse(n.iter), '; '.join(ast.unparse(b) for b in n.body))
                                    for n in sorted((m for m in ast.walk(ss) if isinstance(m, ast.For)), key=lambda m: m.lineno)])
     g.strings('scalerStores', _stores(S))
+    st = X.parse(SCALER)
+    g.strings('scalerClassState', _class_state(S))
+    g.strings('scalerModuleState', _module_state(st))
+    g.strings('scalerSharedStateUses', _shared_state_uses(st, S))
     md = X.find(S, '_calculate_mean_diagonal')
     g.strings('meanDiagonalLoops', ['for %s in %s' % (ast.unparse(n.target), ast.unparse(n.iter))
                                     for n in sorted((m for m in ast.walk(md) if isinstance(m, ast.For)), key=lambda m: m.lineno)])
@@ -725,6 +815,19 @@ def gen_cases(ctx):
         line = 'isect %s %s %s' % (fl(cart), enc_pose(bs), enc_pose(cf))
         cases.append(('isect', line, lambda c=cart, b=bs, f=cf: real_isect(c, b, f), {'op': 'isect'}, ('isect', cart[1], cart[2]), 1e-9))
 
+    # the objective as the optimiser sees it, with two align calls in flight: every residual value handed to least_squares must be
+    # the model's residual at that point for the call's OWN reference points
+    for j in range(8 * k):
+        scA, scB = scenario(rng, Pose, np, min_off=0.3), scenario(rng, Pose, np, min_off=0.3)
+        mode, kk = rng.choice(['threads', 'reentrant']), rng.choice([1, 2, 5, 9, 20])
+        oa, ob, overlapped, _ = overlapped_aligns(scA, scB, mode, kk)
+        for label, sc, o in (('A', scA, oa), ('B', scB, ob)):
+            for call in o[4]:
+                for (x, r, _tid) in call['trace']:
+                    line = 'residual %s %s %s %s' % (fl(x), fl(sc['origin']), enc_vecs(sc['xs']), enc_vecs(sc['pl']))
+                    cases.append(('objective', line, (lambda rr=r: 'ok ' + fl(rr)), {'op': 'objective', 'call': label, 'mode': mode, 'overlapped': overlapped},
+                                  ('objective', j, label, x[0], x[3]), TOL))
+
     # object graph of _scale_system
     for _ in range(200 * k):
         nm, nv = rng.choice([1, 1, 2, 3]), rng.choice([1, 1, 2, 3, 4])
@@ -838,7 +941,7 @@ def converges_with_more_evaluations(origin, xs, pl, tol):
     return bool(constraint_errors(np, A._Pose_from_params(r.x), origin, xs, pl) < tol), int(r.nfev)
 
 
-def check_align(ctx, sc, what, tol=1e-6, stats=None, in_domain=True):
+def check_align(ctx, sc, what, tol=1e-6, stats=None, in_domain=True, outcome=None):
     """all clauses of the alignment part of the property on one scenario; returns True when the exactness clause failed
     because the optimiser stopped at its evaluation cap (D161).  Outside the 30 deg / 3 m domain convergence is not promised:
     there the exactness clauses are required only when the optimiser's own answer satisfies the constraints up to a mirror
@@ -848,13 +951,20 @@ def check_align(ctx, sc, what, tol=1e-6, stats=None, in_domain=True):
     inp = {'what': what, 'origin': [float(v) for v in origin], 'x_axis': [[float(v) for v in x] for x in xs], 'xy_plane': [[float(v) for v in x] for x in pl],
            'bs_poses': {str(k): [float(v) for v in list(p.rot_matrix.flatten()) + list(p.translation)] for k, p in bs.items()},
            'angle_deg': sc.get('angle_deg'), 'trans_m': sc.get('trans')}
-    snap = snapshot(origin, xs, pl, bs)
-    with LsqSpy() as spy:
-        try:
-            res, T = A.align(origin, xs, pl, bs)
-        except Exception as e:
-            ctx.witness('align-raises', 'align raises on a well-formed in-domain input', inp, got=repr(e)[:200])
-            return False
+    if outcome is None:
+        snap = snapshot(origin, xs, pl, bs)
+        exc = res = T = None
+        with LsqSpy() as spy:
+            try:
+                res, T = A.align(origin, xs, pl, bs)
+            except Exception as e:
+                exc = e
+        calls = spy.calls
+    else:      # the call was made elsewhere (overlapping with another call); judge what it returned
+        snap, res, T, exc, calls = outcome
+    if exc is not None:
+        ctx.witness('align-raises', 'align raises on a well-formed in-domain input', inp, got=repr(exc)[:200])
+        return False
     if not unmodified(snap, origin, xs, pl, bs):
         ctx.witness('align-modifies-inputs', 'align modified its inputs', inp)
     R, t = T.rot_matrix, T.translation
@@ -877,7 +987,7 @@ def check_align(ctx, sc, what, tol=1e-6, stats=None, in_domain=True):
             if abs(d0 - d1) > 1e-9 * max(1.0, d0) or np.abs(r0 - r1).max() > 1e-9:
                 ctx.witness('align-not-rigid', 'distance or relative orientation between two base stations changed', inp, pair=[ks[i], ks[j]])
     # exactness
-    call = spy.calls[0] if spy.calls else None
+    call = calls[0] if calls else None
     if not in_domain:
         raw_ok = call is not None and len(call['x']) == 6 and constraint_errors(np, A._Pose_from_params(np.array(call['x'])), origin, xs, pl) < 1e-9
         if stats is not None:
@@ -945,6 +1055,237 @@ def check_deflip(ctx, rng):
         if err > 1e-9:
             ctx.witness('deflip-wrong:' + name, 'a mirror-flipped zero-residual answer is not corrected to the true alignment', inp, error=float(err))
         ctx.count('search:deflip:' + name)
+
+
+class Overlap:
+    """Deterministic overlap of two calls A and B of the code under test: A runs until its k-th pass through a hook point
+    (a residual evaluation requested by least_squares / a copy.copy inside _scale_system), B then runs COMPLETELY, A resumes.
+    mode 'threads': A in its own thread, parked on an Event while the main thread runs B (no sleeps; every wait has a timeout
+    that turns a hang into a harness error).  mode 'reentrant': B is called from inside A's hook point on the same thread.
+    If A finishes before reaching the k-th hook point the two calls simply run one after the other (reported as no overlap)."""
+
+    def __init__(self, mode, k):
+        self.mode, self.k = mode, k
+        self.count = 0
+        self.a_thread = None
+        self.overlapped = False
+        self.run_b = None
+        self.msgs = __import__('queue').Queue()
+        self.resume = __import__('threading').Event()
+        self.armed = False
+
+    def hook_point(self):
+        """called by the instrumented library boundary on every pass; only A's thread, only while armed"""
+        import threading
+        if not self.armed or threading.get_ident() != self.a_thread:
+            return
+        self.count += 1
+        if self.count != self.k:
+            return
+        self.armed = False
+        self.overlapped = True
+        if self.mode == 'reentrant':
+            self.run_b()
+        else:
+            self.msgs.put('paused')
+            if not self.resume.wait(120):
+                raise RuntimeError('harness: overlap resume timeout')
+
+    def run(self, run_a, run_b):
+        import threading
+        self.run_b = run_b
+        if self.mode == 'reentrant':
+            self.a_thread = threading.get_ident()
+            self.armed = True
+            run_a()
+            self.armed = False
+            if not self.overlapped:
+                run_b()
+            return
+
+        def body():
+            self.a_thread = threading.get_ident()
+            self.armed = True
+            try:
+                run_a()
+            finally:
+                self.armed = False
+                self.msgs.put('done')
+        t = threading.Thread(target=body, name='c16-overlap-A')
+        t.start()
+        msg = self.msgs.get(timeout=120)
+        run_b()                      # A is parked inside its call (msg == 'paused') or already finished (msg == 'done')
+        self.resume.set()
+        t.join(120)
+        if t.is_alive():
+            raise RuntimeError('harness: overlapped call did not finish')
+
+
+class LsqOverlapHook:
+    """wraps scipy.optimize.least_squares: records every call (per thread, in completion order) like LsqSpy, keeps the first
+    residual evaluations (point, value) of each call, and reports every residual evaluation to an Overlap as a hook point"""
+
+    def __init__(self, overlap, keep=4):
+        self.ov, self.keep = overlap, keep
+        self.calls = []
+
+    def __enter__(self):
+        import threading
+        import scipy.optimize
+        self.mod, self.orig = scipy.optimize, scipy.optimize.least_squares
+        hook = self
+
+        def wrapped(fun, x0, *a, **kw):
+            trace = []
+
+            def f2(x, *fa, **fk):
+                hook.ov.hook_point()
+                r = fun(x, *fa, **fk)
+                if len(trace) < hook.keep or hook.ov.count in (hook.ov.k, hook.ov.k + 1):
+                    if len(trace) < hook.keep + 4:
+                        trace.append(([float(v) for v in x], [float(v) for v in r], threading.get_ident()))
+                return r
+            r = hook.orig(f2, x0, *a, **kw)
+            hook.calls.append({'fun': fun, 'x0': [float(v) for v in x0], 'kw': dict(kw), 'x': [float(v) for v in r.x], 'status': int(r.status),
+                               'nfev': int(r.nfev), 'cost': float(r.cost), 'trace': trace, 'thread': threading.get_ident()})
+            return r
+        scipy.optimize.least_squares = wrapped
+        return self
+
+    def __exit__(self, *a):
+        self.mod.least_squares = self.orig
+
+
+def overlapped_aligns(scA, scB, mode, k):
+    """run align for A and B overlapped as described by Overlap; returns (outcome A, outcome B, overlapped?, hook calls)"""
+    np, A, S, Pose, _, _ = _mods()
+    ov = Overlap(mode, k)
+    out = {}
+
+    def do(label, sc):
+        snap = snapshot(sc['origin'], sc['xs'], sc['pl'], sc['bs'])
+        res = T = exc = None
+        n0 = len(hook.calls)
+        try:
+            res, T = A.align(sc['origin'], sc['xs'], sc['pl'], sc['bs'])
+        except Exception as e:
+            exc = e
+        out[label] = [snap, res, T, exc, n0]
+    with LsqOverlapHook(ov) as hook:
+        ov.run(lambda: do('A', scA), lambda: do('B', scB))
+    import threading
+    for label in ('A', 'B'):
+        # the least_squares call(s) made by this align: by thread for 'threads', by nesting order for 're-entrant'
+        snap, res, T, exc, n0 = out[label]
+        if mode == 'threads':
+            tid = ov.a_thread if label == 'A' else threading.get_ident()
+            calls = [c for c in hook.calls if c['thread'] == tid]
+        elif ov.overlapped:
+            calls = hook.calls[:1] if label == 'B' else hook.calls[1:2]      # B (inner) completes first
+        else:
+            calls = hook.calls[:1] if label == 'A' else hook.calls[1:2]
+        out[label] = (snap, res, T, exc, calls)
+    return out['A'], out['B'], ov.overlapped, hook.calls
+
+
+def same_result(np, r1, r2):
+    (res1, T1), (res2, T2) = r1, r2
+    if (res1 is None) != (res2 is None):
+        return False
+    if res1 is None:
+        return True
+    return np.array_equal(T1.rot_matrix, T2.rot_matrix) and np.array_equal(T1.translation, T2.translation) and list(res1) == list(res2) and \
+        all(np.array_equal(res1[k].rot_matrix, res2[k].rot_matrix) and np.array_equal(res1[k].translation, res2[k].translation) for k in res1)
+
+
+def check_overlapping_aligns(ctx, rng, i, stats):
+    """two align calls in flight: each must return what it returns when run alone (bit for bit - the code is deterministic),
+    must satisfy every alignment clause for ITS OWN system, and must leave its inputs alone"""
+    np, A, S, Pose, _, _ = _mods()
+    in_domain = rng.random() < 0.8
+    kw = dict(min_off=0.3) if in_domain else dict(maxdeg=180.0, maxt=5.0, min_off=0.3)
+    scA, scB = scenario(rng, Pose, np, **kw), scenario(rng, Pose, np, **kw)
+    mode = rng.choice(['threads', 'threads', 'reentrant'])
+    k = rng.choice([1, 2, 3, 5, 8, 13, 21, 34])
+    solo = {}
+    for label, sc in (('A', scA), ('B', scB)):
+        try:
+            solo[label] = A.align(sc['origin'], sc['xs'], sc['pl'], sc['bs'])
+        except Exception:
+            solo[label] = (None, None)
+    oa, ob, overlapped, _ = overlapped_aligns(scA, scB, mode, k)
+    ctx.count('search:overlap-align:%s:%s' % (mode, 'overlapped' if overlapped else 'sequential'))
+    for label, sc, o, other in (('A', scA, oa, scB), ('B', scB, ob, scA)):
+        what = 'align call %s of two overlapping calls (%s, A parked at its residual evaluation #%d while B runs%s), pair %d' % (
+            label, mode, k, '' if overlapped else ' - A finished earlier, no overlap', i)
+        sc = dict(sc)
+        sc['other_call'] = {'origin': [float(v) for v in other['origin']], 'x_axis': [[float(v) for v in x] for x in other['xs']],
+                            'xy_plane': [[float(v) for v in x] for x in other['pl']]}
+        if not same_result(np, solo[label], (o[1], o[2])):
+            ctx.witness('overlap-changes-align-result', 'align returns something else when another align call is in flight than when it runs alone: '
+                        'its result does not depend on its arguments only',
+                        {'what': what, 'origin': [float(v) for v in sc['origin']], 'x_axis': [[float(v) for v in x] for x in sc['xs']],
+                         'xy_plane': [[float(v) for v in x] for x in sc['pl']], 'other_call': sc['other_call'], 'mode': mode, 'pause_at_evaluation': k},
+                        exception=None if o[3] is None else repr(o[3])[:200])
+        check_align(ctx, sc, what, stats=stats, in_domain=in_domain, outcome=o)
+
+
+def check_overlapping_scales(ctx, rng, i):
+    """two scale calls in flight on OVERLAPPING inputs (shared Pose objects): A is parked at one of its copy.copy calls while B
+    runs completely; both must return what they return alone and nobody's inputs may change"""
+    import cflib.localization.lighthouse_system_scaler as sm
+    np, A, S, Pose, _, _ = _mods()
+    pool = [rand_pose(rng, Pose) for _ in range(5)]
+    def pick():
+        bs = {j: rng.choice(pool) for j in rng.sample(range(8), rng.choice([1, 2, 3]))}
+        cf = [rng.choice(pool) for _ in range(rng.choice([0, 1, 2, 3]))]
+        return bs, cf, np.array(rand_vec(rng)), rng.choice(pool)
+    argsA, argsB = pick(), pick()
+    mode = rng.choice(['threads', 'reentrant'])
+    k = rng.choice([1, 2, 3, 4])
+    snap = [(p, p._R_matrix, p._t_vec, p._R_matrix.copy(), p._t_vec.copy()) for p in pool]
+    solo = {'A': S.scale_fixed_point(*argsA), 'B': S.scale_fixed_point(*argsB)}
+    ov = Overlap(mode, k)
+    out = {}
+
+    class CopyShim:
+        def __init__(self, real):
+            self._real = real
+
+        def copy(self, x):
+            ov.hook_point()
+            return self._real.copy(x)
+
+        def __getattr__(self, name):
+            return getattr(self._real, name)
+
+    def do(label, a):
+        try:
+            out[label] = S.scale_fixed_point(*a)
+        except Exception as e:
+            out[label] = e
+    real_copy = sm.copy
+    sm.copy = CopyShim(real_copy)
+    try:
+        ov.run(lambda: do('A', argsA), lambda: do('B', argsB))
+    finally:
+        sm.copy = real_copy
+    ctx.count('search:overlap-scale:%s:%s' % (mode, 'overlapped' if ov.overlapped else 'sequential'))
+    inp = {'mode': mode, 'pause_at_copy': k, 'pool': [enc_pose(p) for p in pool],
+           'A': {'bs': {str(j): pool.index(p) for j, p in argsA[0].items()}, 'cf': [pool.index(p) for p in argsA[1]], 'expected': argsA[2].tolist(), 'actual': pool.index(argsA[3])},
+           'B': {'bs': {str(j): pool.index(p) for j, p in argsB[0].items()}, 'cf': [pool.index(p) for p in argsB[1]], 'expected': argsB[2].tolist(), 'actual': pool.index(argsB[3])}}
+    if not all(p._R_matrix is r and p._t_vec is t and np.array_equal(r, rc_) and np.array_equal(t, tc_) for (p, r, t, rc_, tc_) in snap):
+        ctx.witness('overlap-scale-modifies-inputs', 'overlapping scale calls modified an input pose', inp)
+    for label in ('A', 'B'):
+        o, s0 = out[label], solo[label]
+        if isinstance(o, Exception):
+            ctx.witness('overlap-scale-raises', 'scale_fixed_point raises when another scale call is in flight', inp, got=repr(o)[:200])
+            continue
+        same = o[2] == s0[2] and list(o[0]) == list(s0[0]) and len(o[1]) == len(s0[1]) and \
+            all(np.array_equal(o[0][j].translation, s0[0][j].translation) and np.array_equal(o[0][j].rot_matrix, s0[0][j].rot_matrix) for j in s0[0]) and \
+            all(np.array_equal(x.translation, y.translation) and np.array_equal(x.rot_matrix, y.rot_matrix) for x, y in zip(o[1], s0[1]))
+        if not same:
+            ctx.witness('overlap-changes-scale-result', 'scale_fixed_point returns something else when another scale call is in flight than alone', inp, call=label)
 
 
 def check_scale(ctx, rng):
@@ -1099,6 +1440,11 @@ def search(ctx):
         check_align(ctx, sc, 'random out-of-domain scenario %d' % i, stats=stats, in_domain=False)
     ctx.count('search:ood-converged', stats.get('ood-converged', 0))
     ctx.count('search:ood-unconverged', stats.get('ood-unconverged', 0))
+    # (1c) several calls in flight: the operations must not communicate through shared state
+    for i in range(40 if ctx.tier == 'quick' else 400):
+        check_overlapping_aligns(ctx, rng, i, stats)
+    for i in range(40 if ctx.tier == 'quick' else 400):
+        check_overlapping_scales(ctx, rng, i)
     # (2) scaling
     for i in range(300 if ctx.tier == 'quick' else 3000):
         check_scale(ctx, rng)
